@@ -9,6 +9,9 @@ struct vp_in {
     struct vp_table t;
     RegisterAtom mem[NAREA][AWORDS];
     uint8_t null_variant; /* 0: regular, 1: t NULL, 2: area NULL, 3: entry NULL */
+    uint16_t flags;       /* MODE_UNINIT: arbitrary table flags (INITIALISED cleared) */
+    uint8_t areas_field;  /* MODE_UNINIT: arbitrary stale counts */
+    uint8_t entries_field;
 };
 VP_DECLARE_INPUT();
 
@@ -41,6 +44,11 @@ static void expect_uninitialised(void)
 void harness(void)
 {
     VP_INPUT(in);
+#ifdef FIX_NA
+    /* the driver enumerates the number of areas and registers (one query each) */
+    in.t.nareas = FIX_NA;
+    in.t.nentries = FIX_NE;
+#endif
     const struct vp_table *d = &in.t;
     VP_ASSUME(vp_desc_wellformed(d));
     for (unsigned i = 0; i < NAREA; ++i) {
@@ -55,7 +63,20 @@ void harness(void)
         for (unsigned w = 0; w < AWORDS; ++w)
             vp_mem[a][w] = in.mem[a][w];
 
-#ifdef MODE_NULL
+#ifdef MODE_UNINIT
+    /* A table that register_init refused (or never saw) has REG_TF_INITIALISED
+     * clear; whatever else it holds, every operation must say so and touch
+     * nothing. (The init instances assert that the flag is clear on failure.) */
+    vp_t.flags = in.flags & (uint16_t)~REG_TF_INITIALISED;
+    vp_t.areas = in.areas_field;
+    vp_t.entries = in.entries_field;
+    struct vp_snapshot before0;
+    vp_snap(&before0);
+    expect_uninitialised();
+    VP_ASSERT(vp_mem_equal(&before0), "C04.uninitialised.nothing-touched");
+    VP_WITNESS(vp_t.flags != 0 && in.entries_field > NREG, "C04.uninitialised.reach");
+    return;
+#elif defined(MODE_NULL)
     VP_ASSUME(in.null_variant >= 1);
     RegisterInit rn;
     if (in.null_variant == 1) {
@@ -69,11 +90,10 @@ void harness(void)
     }
     VP_ASSERT(rn.code != REG_INIT_SUCCESS, "C04.null.refused");
     VP_ASSERT(rn.code == REG_INIT_TABLE_INVALID, "C04.null.table-invalid");
-    VP_WITNESS(in.null_variant == 3 && d->nareas == NAREA, "C04.null.reach");
+    VP_WITNESS(in.null_variant == 3, "C04.null.reach");
     return;
 #else
     VP_ASSUME(in.null_variant == 0);
-#endif
 
     RegisterInit ri = register_init(&vp_t);
 
@@ -147,11 +167,14 @@ void harness(void)
             ok = ok_hole || ok_bad;
         }
         VP_ASSERT(ok, "C04.failure.first-violated-rule-and-index");
+        /* => every operation answers UNINITIALISED: decided in the c04_uninit instance */
         VP_ASSERT(!BIT_ISSET(vp_t.flags, REG_TF_INITIALISED), "C04.failure.not-initialised");
-        expect_uninitialised();
-        VP_WITNESS(ri.code == REG_INIT_AREA_ADDRESS_OVERLAP && ri.pos.area == NAREA - 1, "C04.area-overlap.reach");
+#if FIX_NA >= 2
+        VP_WITNESS(ri.code == REG_INIT_AREA_ADDRESS_OVERLAP && ri.pos.area == FIX_NA - 1, "C04.area-overlap.reach");
         VP_WITNESS(ri.code == REG_INIT_AREA_INVALID_ORDER, "C04.area-order.reach");
-        VP_WITNESS(ri.code == REG_INIT_ENTRY_ADDRESS_OVERLAP && ri.pos.entry == NREG - 1, "C04.entry-overlap.reach");
+#endif
+#if FIX_NE >= 2 && FIX_NA >= 1
+        VP_WITNESS(ri.code == REG_INIT_ENTRY_ADDRESS_OVERLAP && ri.pos.entry == FIX_NE - 1, "C04.entry-overlap.reach");
         VP_WITNESS(ri.code == REG_INIT_ENTRY_INVALID_ORDER, "C04.entry-order.reach");
         VP_WITNESS(ri.code == REG_INIT_ENTRY_IN_MEMORY_HOLE && ri.pos.entry >= 1 &&
                        ref_area_of(d, d->e[ri.pos.entry].address) >= 0,
@@ -159,7 +182,16 @@ void harness(void)
         VP_WITNESS(ri.code == REG_INIT_ENTRY_INVALID_DEFAULT && ri.pos.entry >= 1 &&
                        d->e[ri.pos.entry].check == REGV_TYPE_RANGE,
                    "C04.bad-default.reach");
+#endif
+#if FIX_NE == 1 && FIX_NA >= 1
+        VP_WITNESS(ri.code == REG_INIT_ENTRY_IN_MEMORY_HOLE && ref_area_of(d, d->e[0].address) < 0,
+                   "C04.entry-in-hole.reach");
+        VP_WITNESS(ri.code == REG_INIT_ENTRY_INVALID_DEFAULT && d->e[0].type == REG_TYPE_FLOAT32,
+                   "C04.bad-float-default.reach");
+#endif
+#if FIX_NA == 0
         VP_WITNESS(ri.code == REG_INIT_NO_AREAS, "C04.no-areas.reach");
+#endif
         return;
     }
 
@@ -214,19 +246,26 @@ void harness(void)
             VP_ASSERT(vp_areas[a].entry.first == first && vp_areas[a].entry.last == first + cnt - 1,
                       "C04.success.area-register-run");
     }
-    VP_WITNESS(d->nareas == NAREA && d->nentries == NREG && vp_areas[NAREA - 1].entry.count >= 2 &&
-                   vp_areas[0].entry.count == 0,
+#if FIX_NA >= 2 && FIX_NE >= 2
+    VP_WITNESS(vp_areas[FIX_NA - 1].entry.count >= 2 && vp_areas[0].entry.count == 0,
                "C04.success.empty-first-area.reach");
-    VP_WITNESS(d->nareas == NAREA && d->nentries == NREG && (d->a[0].flags & REG_AF_SKIP_DEFAULTS) &&
-                   vp_areas[0].entry.count >= 1 && !d->a[0].custom,
+    VP_WITNESS(d->a[1].base == d->a[0].base + d->a[0].size && d->a[0].size > 0 && vp_areas[0].entry.count >= 1 &&
+                   vp_areas[1].entry.count >= 1,
+               "C04.success.adjacent-areas.reach");
+#endif
+#if FIX_NA >= 1 && FIX_NE >= 1
+    VP_WITNESS((d->a[0].flags & REG_AF_SKIP_DEFAULTS) && vp_areas[0].entry.count >= 1 && !d->a[0].custom,
                "C04.success.skip-defaults.reach");
-    VP_WITNESS(d->nentries == 0 && d->nareas >= 1, "C04.success.no-registers.reach");
-    VP_WITNESS(d->nentries >= 1 && d->e[0].check == REGV_TYPE_FAIL && ref_area_loads_defaults(&d->a[0]) &&
+    VP_WITNESS(d->e[0].check == REGV_TYPE_FAIL && ref_area_loads_defaults(&d->a[0]) &&
                    ref_area_of(d, d->e[0].address) == 0,
                "C04.success.fail-constraint-default-loaded.reach");
-    VP_WITNESS(d->nareas >= 2 && d->a[1].base == d->a[0].base + d->a[0].size && d->a[0].size > 0,
-               "C04.success.adjacent-areas.reach");
-    VP_WITNESS(d->nareas >= 1 && !d->a[0].has_write && vp_areas[0].entry.count >= 1,
-               "C04.success.no-write-callback-area.reach");
+    VP_WITNESS(!d->a[0].has_write && vp_areas[0].entry.count >= 1, "C04.success.no-write-callback-area.reach");
+    VP_WITNESS(d->a[0].custom && ref_area_loads_defaults(&d->a[0]) && vp_areas[0].entry.count == FIX_NE && d->bigendian,
+               "C04.success.custom-area-bigendian.reach");
+#endif
+#if FIX_NA >= 1 && FIX_NE == 0
+    VP_WITNESS(d->nentries == 0 && d->nareas >= 1, "C04.success.no-registers.reach");
+#endif
+#endif /* !MODE_NULL && !MODE_UNINIT */
 }
 VP_MAIN_EPILOGUE()
